@@ -1,27 +1,8 @@
 -------------------------------- MODULE Xid --------------------------------
-(* The process-wide transaction-id generator (common/header.go): a shared   *)
-(* counter advanced by every draw.  Atomic = TRUE models the code           *)
-(* (fetch-and-add, returning the new value); Atomic = FALSE splits the draw *)
-(* into a read and a write-back, which TLC must refute (sensitivity).       *)
-EXTENDS Integers, Sequences, FiniteSets, TLC
-CONSTANTS Procs, Draws, Atomic
-VARIABLES counter, pc, tmp, got
-vars == <<counter, pc, tmp, got>>
-Init == /\ counter = 1 /\ pc = [p \in Procs |-> "idle"] /\ tmp = [p \in Procs |-> 0]
-        /\ got = [p \in Procs |-> <<>>]
-Draw(p) == /\ Atomic /\ pc[p] = "idle" /\ Len(got[p]) < Draws
-           /\ counter' = counter + 1
-           /\ got' = [got EXCEPT ![p] = Append(@, counter + 1)]
-           /\ UNCHANGED <<pc, tmp>>
-DrawRead(p) == /\ ~Atomic /\ pc[p] = "idle" /\ Len(got[p]) < Draws
-               /\ tmp' = [tmp EXCEPT ![p] = counter] /\ pc' = [pc EXCEPT ![p] = "write"]
-               /\ UNCHANGED <<counter, got>>
-DrawWrite(p) == /\ ~Atomic /\ pc[p] = "write"
-                /\ counter' = tmp[p] + 1
-                /\ got' = [got EXCEPT ![p] = Append(@, tmp[p] + 1)]
-                /\ pc' = [pc EXCEPT ![p] = "idle"] /\ UNCHANGED tmp
-Next == \E p \in Procs : Draw(p) \/ DrawRead(p) \/ DrawWrite(p)
-Spec == Init /\ [][Next]_vars
+(* Properties of the transaction-id generator XidCore.tla as TLC checks them  *)
+(* (XidProof.tla proves pairwise distinctness for any number of drawers and   *)
+(* draws with TLAPS).                                                         *)
+EXTENDS XidCore
 Issued == UNION {{got[p][i] : i \in 1..Len(got[p])} : p \in Procs}
 Total == LET RECURSIVE S(_) S(ps) == IF ps = {} THEN 0 ELSE LET p == CHOOSE x \in ps : TRUE IN Len(got[p]) + S(ps \ {p})
          IN S(Procs)
